@@ -30,12 +30,12 @@ Record Inv (s : pst) : Prop := {
   I_in : late s = false -> rcvd_of (trace s) = fed s;
   I_bin : fed s = consumed s ++ bin s;
   I_flush : forallb recv_flushed (trace s) = true;
-  I_eof : eof_seen (trace s) -> bin_eof s = true
+  I_eof : std s = true -> eof_seen (trace s) -> bin_eof s = true
 }.
 
 Lemma inv_init sc rx tail tx : Inv (init_pst sc rx tail tx).
 Proof.
-  constructor; cbn; auto. intros [p []].
+  constructor; cbn; auto. intros _ [p []].
 Qed.
 
 Lemma eof_seen_snoc tr c : eof_seen (tr ++ [c]) -> eof_seen tr \/ exists p, c = CRecv p RxEof.
@@ -65,7 +65,7 @@ Proof.
   - intros H. rewrite rcvd_of_app. cbn. rewrite app_nil_r. apply (I_in s I H).
   - apply (I_bin s I).
   - rewrite forallb_app. cbn. rewrite (I_flush s I). reflexivity.
-  - intros H. apply eof_seen_snoc in H. destruct H as [H|[p H]]; [apply (I_eof s I H)|discriminate].
+  - intros Hs H. apply eof_seen_snoc in H. destruct H as [H|[p H]]; [apply (I_eof s I Hs H)|discriminate].
 Qed.
 
 Lemma do_send_bout s : bout (fst (do_send s)) = [].
@@ -87,7 +87,7 @@ Proof.
   - intros H. rewrite rcvd_of_app. destruct Hc as [-> | ->]; cbn; rewrite app_nil_r; apply (I_in s I H).
   - apply (I_bin s I).
   - rewrite forallb_app. cbn. rewrite (I_flush s I). destruct Hc as [-> | ->]; reflexivity.
-  - intros H. apply eof_seen_snoc in H. destruct H as [H|[p H]]; [apply (I_eof s I H)|].
+  - intros Hs H. apply eof_seen_snoc in H. destruct H as [H|[p H]]; [apply (I_eof s I Hs H)|].
     destruct Hc as [-> | ->]; discriminate.
 Qed.
 
@@ -119,7 +119,7 @@ Proof.
     exfalso. now apply (Hd d).
   - apply (I_bin s I).
   - rewrite forallb_app. cbn. now rewrite (I_flush s I).
-  - intros H. apply eof_seen_snoc in H. destruct H as [H|[p H]]; [apply (I_eof s I H)|].
+  - intros Hs H. apply eof_seen_snoc in H. destruct H as [H|[p H]]; [apply (I_eof s I Hs H)|].
     injection H as _ H. destruct (Hr H).
 Qed.
 
@@ -132,30 +132,35 @@ Proof.
     assert (Hcommon : forall s3, s3 = log_call s2 (CRecv (length (bout s2)) (RxData d)) ->
               (sendfail s3 = false -> produced s3 = sent_of (trace s3) ++ bout s3) /\
               forallb recv_flushed (trace s3) = true /\
-              (eof_seen (trace s3) -> bin_eof s3 = true) /\
+              (std s3 = true -> eof_seen (trace s3) -> bin_eof s3 = true) /\
               fed s3 = consumed s3 ++ bin s3 /\
               (late s3 = false -> rcvd_of (trace s3) = fed s3 ++ d)).
     { intros s3 ->. rewrite Hb2. cbn. refine (conj _ (conj _ (conj _ (conj _ _)))).
       - intros H. rewrite sent_of_app. cbn. rewrite app_nil_r. apply (I_out s2 I2 H).
       - rewrite forallb_app. cbn. now rewrite (I_flush s2 I2).
-      - intros H. apply eof_seen_snoc in H. destruct H as [H|[p H]]; [apply (I_eof s2 I2 H)|discriminate].
+      - intros Hs H. apply eof_seen_snoc in H. destruct H as [H|[p H]]; [apply (I_eof s2 I2 Hs H)|discriminate].
       - apply (I_bin s2 I2).
       - intros H. rewrite rcvd_of_app. cbn. rewrite app_nil_r. now rewrite (I_in s2 I2 H). }
     specialize (Hcommon _ eq_refl). destruct Hcommon as (H1 & H2 & H3 & H4 & H5).
     cbn [fst]. destruct (bin_eof (log_call s2 _)) eqn:Ee; cbn [fst].
-    + constructor; [exact H1|discriminate|exact H4|exact H2|intros _; exact Ee].
+    + constructor; [exact H1|discriminate|exact H4|exact H2|intros _ _; exact Ee].
     + constructor.
       * exact H1.
       * exact H5.
       * cbn in H4 |- *. rewrite H4. now rewrite app_assoc.
       * exact H2.
-      * intros H. apply H3 in H. discriminate.
+      * intros Hs H. apply (H3 Hs) in H. discriminate.
   - (* EndOfStream *)
-    cbn [fst]. constructor; cbn; try reflexivity.
+    cbn [std log_call]. destruct (std s2) eqn:Es; cbn [fst]; constructor; cbn; try reflexivity.
     + intros H. rewrite sent_of_app. cbn. rewrite app_nil_r. apply (I_out s2 I2 H).
     + intros H. rewrite rcvd_of_app. cbn. rewrite app_nil_r. apply (I_in s2 I2 H).
     + apply (I_bin s2 I2).
     + rewrite forallb_app. cbn. rewrite Hb2. cbn. now rewrite (I_flush s2 I2).
+    + intros H. rewrite sent_of_app. cbn. rewrite app_nil_r. apply (I_out s2 I2 H).
+    + intros H. rewrite rcvd_of_app. cbn. rewrite app_nil_r. apply (I_in s2 I2 H).
+    + apply (I_bin s2 I2).
+    + rewrite forallb_app. cbn. rewrite Hb2. cbn. now rewrite (I_flush s2 I2).
+    + intros Hs. rewrite Es in Hs. discriminate.
   - cbn [fst]. apply both_eof_inv. apply log_recv_inv; auto; discriminate.
   - cbn [fst]. apply log_recv_inv; auto; discriminate.
   - cbn [fst]. apply log_recv_inv; auto; discriminate.
@@ -240,13 +245,15 @@ Definition tx_fail (r : res) : Prop := r = ROSError \/ r = RBroken \/ r = RClose
 Definition res_of_ev (sc : bool) (e : sslev) (r : res) (s' : pst) : Prop :=
   match ek e with
   | KOk => r = RVal (eval e) \/ (sendfail s' = true /\ tx_fail r)
-  | KWantRead => r = RBroken \/ r = RClosed \/ (r = RSslOther /\ late s' = true)
+  | KWantRead => r = RBroken \/ r = RClosed \/ (r = RSslOther /\ late s' = true) \/ (r = REndOfStream /\ sc = false)
   | KWantWrite => sendfail s' = true /\ tx_fail r
   | KSyscall => r = RBroken
   | KEofCls | KEofStr => r = if sc then RBroken else REndOfStream
   | KOther => r = RSslOther
   | KZeroRet => r = RSslZeroRet
   end.
+
+Ltac case_ifs := repeat match goal with |- context [if ?b then _ else _] => let E := fresh "E" in destruct b eqn:E end.
 
 Lemma do_send_frame s : std (fst (do_send s)) = std s /\ olog (fst (do_send s)) = olog s.
 Proof. split; reflexivity. Qed.
@@ -258,8 +265,8 @@ Lemma do_recv_frame s : std (fst (do_recv s)) = std s /\ olog (fst (do_recv s)) 
 Proof.
   unfold do_recv, pop_rx. destruct (rxs s) as [|r rest].
   - destruct (rx_tail s) as [r|]; [|split; reflexivity].
-    destruct r; cbn; try (split; reflexivity). destruct (bin_eof s); split; reflexivity.
-  - destruct r; cbn; try (split; reflexivity). destruct (bin_eof s); split; reflexivity.
+    destruct r; cbn; case_ifs; split; cbn; congruence.
+  - destruct r; cbn; case_ifs; split; cbn; congruence.
 Qed.
 
 Lemma on_ev_frame s e : std (fst (on_ev s e)) = std s /\ olog (fst (on_ev s e)) = olog s.
@@ -293,11 +300,16 @@ Proof.
   - destruct (flush s) as [s1 t] eqn:E. destruct (is_txok t) eqn:Et; intros H Hr; injection H as <- <-.
     + now left.
     + right. apply (flush_fail s s1 t E Et).
-  - destruct (flush s) as [s1 t] eqn:E. destruct t.
-    + unfold do_recv. destruct (pop_rx s1) as [[x s3]|]; [|intros H Hr; injection H as <- <-; contradiction].
+  - destruct (flush s) as [s1 t] eqn:E. pose proof (flush_frame s) as [Hf _]. rewrite E in Hf. cbn [fst] in Hf.
+    destruct t.
+    + unfold do_recv. destruct (pop_rx s1) as [[x s3]|] eqn:Ep; [|intros H Hr; injection H as <- <-; contradiction].
+      assert (Hs3 : std s3 = std s).
+      { unfold pop_rx in Ep. destruct (rxs s1); [destruct (rx_tail s1); [|discriminate]|];
+          injection Ep as _ <-; exact Hf. }
       destruct x; try (intros H Hr; injection H as <- <-; auto; fail).
-      * destruct (bin_eof _); intros H Hr; [|discriminate]. injection H as <- <-. right. right. split; reflexivity.
-      * discriminate.
+      * destruct (bin_eof _); intros H Hr; [|discriminate]. injection H as <- <-. right. right. left. split; reflexivity.
+      * cbn [std log_call]. destruct (std s3) eqn:Es; intros H Hr; [discriminate|]. injection H as <- <-.
+        right. right. right. split; [reflexivity|congruence].
     + intros H Hr; injection H as <- <-; auto.
     + intros H Hr; injection H as <- <-; auto.
     + intros H Hr; injection H as <- <-; auto.
@@ -353,7 +365,7 @@ Section Generic2.
       destruct (is_txok t); intros H; inversion H; subst; exact Hb.
     - destruct (flush s) as [s1 t]. destruct t; try discriminate.
       unfold do_recv. destruct (pop_rx s1) as [[x s3]|]; [|discriminate].
-      destruct x; try discriminate. destruct (bin_eof _); discriminate.
+      destruct x; try discriminate; case_ifs; discriminate.
     - destruct (do_send s) as [s1 t]. destruct t; cbn; discriminate.
     - destruct (std s); discriminate.
     - destruct (std s); discriminate.
@@ -400,12 +412,35 @@ Section PumpTheorems.
     destruct p; [reflexivity|discriminate].
   Qed.
 
-  Theorem pump_transport_eof_reaches_bio fuel o0 sc rx tail tx ops :
-    let s := snd (fst (run O ocall fuel (o0, init_pst sc rx tail tx) ops)) in
+  Lemma step_std fuel w a : std (snd (fst (step O ocall fuel w a))) = std (snd w).
+  Proof.
+    destruct w as [o s]. cbn [snd]. destruct a as [|n|item| |]; cbn [step].
+    - pose proof (pump_std O ocall fuel o FHandshake s) as H1.
+      destruct (pump O ocall fuel o FHandshake s) as [[o1 s1] r]. destruct r; exact H1.
+    - destruct n as [|n]; [reflexivity|].
+      pose proof (pump_std O ocall fuel o (FRead (S n)) s) as H1.
+      destruct (pump O ocall fuel o (FRead (S n)) s) as [[o1 s1] r]. destruct r as [[|x v]| | | | | | | |]; exact H1.
+    - pose proof (pump_std O ocall fuel o (FWrite item) s) as H1.
+      destruct (pump O ocall fuel o (FWrite item) s) as [[o1 s1] r]. destruct r; exact H1.
+    - unfold do_unwrap. pose proof (pump_std O ocall fuel o FUnwrap s) as H1.
+      destruct (pump O ocall fuel o FUnwrap s) as [[o1 s1] r]. destruct r; exact H1.
+    - destruct (std s) eqn:Es; [|exact Es]. unfold do_unwrap. pose proof (pump_std O ocall fuel o FUnwrap s) as H1.
+      destruct (pump O ocall fuel o FUnwrap s) as [[o1 s1] r]. destruct r; cbn in *; congruence.
+  Qed.
+
+  Lemma run_std fuel ops : forall w, std (snd (fst (run O ocall fuel w ops))) = std (snd w).
+  Proof.
+    unfold run. intros w. rewrite run_ops_final. unfold final. revert w.
+    induction ops as [|a ops IH]; intros w; cbn [fold_left]; [reflexivity|]. rewrite IH. apply step_std.
+  Qed.
+
+  (* standard_compatible: the transport's end of stream is handed to the SSL object, which judges it *)
+  Theorem pump_transport_eof_reaches_bio fuel o0 rx tail tx ops :
+    let s := snd (fst (run O ocall fuel (o0, init_pst true rx tail tx) ops)) in
     forall p, In (CRecv p RxEof) (trace s) -> bin_eof s = true.
   Proof.
-    cbn zeta. pose proof (run_inv O ocall fuel ops (o0, init_pst sc rx tail tx) (inv_init sc rx tail tx)) as I.
-    intros p H. apply (I_eof _ I). now exists p.
+    cbn zeta. pose proof (run_inv O ocall fuel ops (o0, init_pst true rx tail tx) (inv_init true rx tail tx)) as I.
+    intros p H. apply (I_eof _ I); [|now exists p]. now rewrite run_std.
   Qed.
 
   Definition unexpected_eof (e : sslev) : Prop := ek e = KEofCls \/ ek e = KEofStr.
@@ -414,7 +449,7 @@ Section PumpTheorems.
     step O ocall fuel (o, s) (OReceive n) = ((o', s'), r) -> r <> RStuck -> r <> RValueError ->
     exists pre e, olog s' = pre ++ [(FRead n, e)] /\ answered O ocall (FRead n) e /\
       (unexpected_eof e -> r = if std s then RBroken else REndOfStream) /\
-      (r = REndOfStream -> (ek e = KOk /\ eval e = []) \/ (std s = false /\ unexpected_eof e)) /\
+      (r = REndOfStream -> (ek e = KOk /\ eval e = []) \/ (std s = false /\ (unexpected_eof e \/ ek e = KWantRead))) /\
       (std s = true -> r = REndOfStream -> ek e = KOk /\ eval e = []) /\
       (forall v, r = RVal v -> ek e = KOk /\ eval e = v /\ v <> []).
   Proof.
@@ -436,8 +471,10 @@ Section PumpTheorems.
           intros v0 Hv0. injection Hv0 as <-. repeat split; auto. discriminate.
       + destruct Hf as [-> | [-> | ->]]; injection H as _ <-;
           (refine (conj _ (conj _ (conj _ _))); try (intros [?|?]; discriminate); try discriminate).
-    - destruct Hres as [-> | [-> | [-> _]]]; injection H as _ <-;
+    - destruct Hres as [-> | [-> | [[-> _] | [-> Hsf]]]]; injection H as _ <-;
         (refine (conj _ (conj _ (conj _ _))); try (intros [?|?]; discriminate); try discriminate).
+      + intros _. right. auto.
+      + intros Hs. congruence.
     - destruct Hres as [_ [-> | [-> | ->]]]; injection H as _ <-;
         (refine (conj _ (conj _ (conj _ _))); try (intros [?|?]; discriminate); try discriminate).
     - subst r1. injection H as _ <-.
@@ -573,13 +610,28 @@ Record S1 (s : pst) : Prop := {
   S_eof : bin_eof s = true -> rxs s = []
 }.
 
-Definition same (s s2 : pst) : Prop := std s2 = std s /\ produced s2 = produced s.
+Definition same0 (s s2 : pst) : Prop := std s2 = std s /\ produced s2 = produced s.
+
+Definition same (s s2 : pst) : Prop :=
+  std s2 = std s /\ produced s2 = produced s /\ (std s = false -> bin_eof s2 = bin_eof s).
 
 Lemma same_refl s : same s s.
-Proof. split; reflexivity. Qed.
+Proof. repeat split; reflexivity. Qed.
 
 Lemma same_trans a b c : same a b -> same b c -> same a c.
+Proof.
+  intros (H1 & H2 & H3) (H4 & H5 & H6). refine (conj _ (conj _ _)); try congruence.
+  intros H. rewrite H6 by congruence. auto.
+Qed.
+
+Lemma same0_refl s : same0 s s.
+Proof. split; reflexivity. Qed.
+
+Lemma same0_trans a b c : same0 a b -> same0 b c -> same0 a c.
 Proof. intros [H1 H2] [H3 H4]. split; congruence. Qed.
+
+Lemma same_same0 a b : same a b -> same0 a b.
+Proof. intros (H1 & H2 & _). split; assumption. Qed.
 
 Definition tob (m : nat) (hsd : bool) (ib : list byte) : tobj := mkt m true hsd ib [] false false false.
 Definition wr (c : nat) : sslev := mkev KWantRead [] c [].
@@ -595,19 +647,35 @@ Proof.
   unfold on_ev, wr. cbn [ek]. unfold flush, apply_ev. cbn [bout eemit]. rewrite Hb. cbn [app].
   unfold do_recv, pop_rx. cbn [rxs]. rewrite Hrx. cbn. rewrite Hne.
   eexists. split; [reflexivity|]. rewrite Hrx in Hd. cbn in Hd.
-  split; [constructor; cbn; auto; discriminate|]. split; [split; cbn; auto using app_nil_r|]. split; reflexivity.
+  split; [constructor; cbn; auto; discriminate|].
+  split; [refine (conj _ (conj _ _)); cbn; auto using app_nil_r|]. split; reflexivity.
 Qed.
 
 Lemma wantread_eof s f c :
-  S1 s -> rxs s = [] ->
+  S1 s -> rxs s = [] -> std s = true ->
   exists s', on_ev (apply_ev s f (wr c)) (wr c) = (s', Again) /\ S1 s' /\ same s s' /\
              bin s' = skipn c (bin s) /\ rxs s' = [] /\ bin_eof s' = true.
 Proof.
-  intros H Hrx. destruct H as [Hb Ht Htl Hd He].
+  intros H Hrx Hstd. destruct H as [Hb Ht Htl Hd He].
   unfold on_ev, wr. cbn [ek]. unfold flush, apply_ev. cbn [bout eemit]. rewrite Hb. cbn [app].
-  unfold do_recv, pop_rx. cbn [rxs rx_tail]. rewrite Hrx, Htl. cbn.
+  unfold do_recv, pop_rx. cbn [rxs rx_tail]. rewrite Hrx, Htl. cbn. rewrite Hstd.
   eexists. split; [reflexivity|].
-  split; [constructor; cbn; auto|]. split; [split; cbn; auto using app_nil_r|]. repeat split; auto.
+  split; [constructor; cbn; auto|].
+  split; [refine (conj _ (conj _ _)); cbn; auto using app_nil_r; congruence|]. repeat split; auto.
+Qed.
+
+(* not standard_compatible: the ragged end is reported as it is; nothing else changes *)
+Lemma wantread_eof_ragged s f c :
+  S1 s -> rxs s = [] -> std s = false ->
+  exists s', on_ev (apply_ev s f (wr c)) (wr c) = (s', Done REndOfStream) /\ S1 s' /\ same s s' /\
+             bin s' = skipn c (bin s) /\ rxs s' = [].
+Proof.
+  intros H Hrx Hstd. destruct H as [Hb Ht Htl Hd He].
+  unfold on_ev, wr. cbn [ek]. unfold flush, apply_ev. cbn [bout eemit]. rewrite Hb. cbn [app].
+  unfold do_recv, pop_rx. cbn [rxs rx_tail]. rewrite Hrx, Htl. cbn. rewrite Hstd.
+  eexists. split; [reflexivity|].
+  split; [constructor; cbn; auto|].
+  split; [refine (conj _ (conj _ _)); cbn; auto using app_nil_r|]. split; auto.
 Qed.
 
 Lemma pump_S fuel o f s :
@@ -643,34 +711,47 @@ Lemma fill_loop m hsd f t p more : waits hsd f ->
   forall rx ib s fuel,
     S1 s -> rxs s = rx -> prefix (ib ++ bin s ++ rx_bytes rx) (t :: length p :: p ++ more) ->
     length rx + 2 <= fuel ->
-    exists ib2 s2 fuel2,
-      pump tobj toy_call fuel (tob m hsd ib) f s = pump tobj toy_call (S fuel2) (tob m hsd ib2) f s2 /\
+    exists ib2 s2,
       S1 s2 /\ same s s2 /\
       ib2 ++ bin s2 ++ rx_bytes (rxs s2) = ib ++ bin s ++ rx_bytes rx /\
       length (rxs s2) <= length rx /\
-      (2 + length p <= length (ib2 ++ bin s2) \/
-       (length (ib2 ++ bin s2) < 2 + length p /\ bin_eof s2 = true /\ rxs s2 = [])).
+      ((exists fuel2,
+          pump tobj toy_call fuel (tob m hsd ib) f s = pump tobj toy_call (S fuel2) (tob m hsd ib2) f s2 /\
+          (2 + length p <= length (ib2 ++ bin s2) \/
+           (length (ib2 ++ bin s2) < 2 + length p /\ bin_eof s2 = true /\ rxs s2 = []))) \/
+       (std s = false /\ pump tobj toy_call fuel (tob m hsd ib) f s = (tob m hsd ib2, s2, REndOfStream) /\
+        length ib2 < 2 + length p /\ bin s2 = [] /\ rxs s2 = [])).
 Proof.
   intros Hw. induction rx as [|r rest IH]; intros ib s fuel H1 Hrx Hpre Hfuel.
   - (* no more chunks *)
     destruct (le_lt_dec (2 + length p) (length (ib ++ bin s))) as [Hc|Hc].
-    + destruct fuel as [|k]; [lia|]. exists ib, s, k. rewrite Hrx.
-      exact (conj eq_refl (conj H1 (conj (same_refl s) (conj eq_refl (conj (le_n _) (or_introl Hc)))))).
+    + destruct fuel as [|k]; [lia|]. exists ib, s. rewrite Hrx.
+      refine (conj H1 (conj (same_refl s) (conj eq_refl (conj (le_n _) (or_introl _))))).
+      exists k. split; [reflexivity|]. now left.
     + destruct (bin_eof s) eqn:Ee.
-      * destruct fuel as [|k]; [lia|]. exists ib, s, k. rewrite Hrx.
-        exact (conj eq_refl (conj H1 (conj (same_refl s) (conj eq_refl (conj (le_n _) (or_intror (conj Hc (conj Ee eq_refl)))))))).
+      * destruct fuel as [|k]; [lia|]. exists ib, s. rewrite Hrx.
+        refine (conj H1 (conj (same_refl s) (conj eq_refl (conj (le_n _) (or_introl _))))).
+        exists k. split; [reflexivity|]. right. auto.
       * destruct fuel as [|[|k]]; try lia.
         assert (Hp : parse (ib ++ bin s) = None).
         { apply (parse_incomplete t p more); [|exact Hc].
           cbn [rx_bytes] in Hpre. rewrite app_nil_r in Hpre. exact Hpre. }
         rewrite pump_S, (toy_incomplete m hsd f ib (bin s) (bin_eof s) Hw Hp), Ee.
-        destruct (wantread_eof s f (length (bin s)) H1 Hrx) as (s' & Hev & H1' & Hs & Hb & Hr & He').
-        rewrite Hev. exists (ib ++ bin s), s', k.
-        rewrite skipn_all in Hb. rewrite Hb, Hr. cbn [rx_bytes]. rewrite !app_nil_r.
-        exact (conj eq_refl (conj H1' (conj Hs (conj eq_refl (conj (le_n _) (or_intror (conj Hc (conj He' eq_refl)))))))).
+        destruct (std s) eqn:Es.
+        -- destruct (wantread_eof s f (length (bin s)) H1 Hrx Es) as (s' & Hev & H1' & Hs & Hb & Hr & He').
+           rewrite Hev. exists (ib ++ bin s), s'.
+           rewrite skipn_all in Hb. rewrite Hb, Hr. cbn [rx_bytes]. rewrite !app_nil_r.
+           refine (conj H1' (conj Hs (conj eq_refl (conj (le_n _) (or_introl _))))).
+           exists k. split; [reflexivity|]. right. auto.
+        -- destruct (wantread_eof_ragged s f (length (bin s)) H1 Hrx Es) as (s' & Hev & H1' & Hs & Hb & Hr).
+           rewrite Hev. exists (ib ++ bin s), s'.
+           rewrite skipn_all in Hb. rewrite Hb, Hr. cbn [rx_bytes]. rewrite !app_nil_r.
+           refine (conj H1' (conj Hs (conj eq_refl (conj (le_n _) (or_intror _))))).
+           repeat split; auto.
   - destruct (le_lt_dec (2 + length p) (length (ib ++ bin s))) as [Hc|Hc].
-    + destruct fuel as [|k]; [lia|]. exists ib, s, k. rewrite Hrx.
-      exact (conj eq_refl (conj H1 (conj (same_refl s) (conj eq_refl (conj (le_n _) (or_introl Hc)))))).
+    + destruct fuel as [|k]; [lia|]. exists ib, s. rewrite Hrx.
+      refine (conj H1 (conj (same_refl s) (conj eq_refl (conj (le_n _) (or_introl _))))).
+      exists k. split; [reflexivity|]. now left.
     + assert (Hd := S_data s H1). rewrite Hrx in Hd. cbn in Hd. apply andb_prop in Hd. destruct Hd as [Hd _].
       destruct r as [d| | | |]; try discriminate.
       assert (Ee : bin_eof s = false).
@@ -683,12 +764,14 @@ Proof.
       rewrite pump_S, (toy_incomplete m hsd f ib (bin s) (bin_eof s) Hw Hp), Ee.
       destruct (wantread_data s f (length (bin s)) d rest H1 Hrx) as (s' & Hev & H1' & Hs & Hb & Hr).
       rewrite Hev. rewrite skipn_all in Hb. cbn [app] in Hb.
-      destruct (IH (ib ++ bin s) s' k H1' Hr) as (ib2 & s2 & fuel2 & Hpump & H12 & Hs2 & Hstream & Hlen & Hcase).
+      destruct (IH (ib ++ bin s) s' k H1' Hr) as (ib2 & s2 & H12 & Hs2 & Hstream & Hlen & Hcase).
       * rewrite Hb. cbn [rx_bytes] in Hpre. now rewrite <- app_assoc.
       * cbn in Hfuel. lia.
-      * exists ib2, s2, fuel2. split; [exact Hpump|]. split; [exact H12|].
-        split; [apply (same_trans _ _ _ Hs Hs2)|]. split; [|split; [cbn; lia|exact Hcase]].
-        rewrite Hstream, Hb. cbn [rx_bytes]. now rewrite <- app_assoc.
+      * exists ib2, s2. split; [exact H12|].
+        split; [apply (same_trans _ _ _ Hs Hs2)|]. split; [|split; [cbn; lia|]].
+        -- rewrite Hstream, Hb. cbn [rx_bytes]. now rewrite <- app_assoc.
+        -- destruct Hcase as [Hcase|(Hsf & Hcase)]; [left; exact Hcase|right].
+           split; [|exact Hcase]. destruct Hs as (Hs & _). congruence.
 Qed.
 
 (* a call that succeeds without producing output *)
@@ -698,14 +781,15 @@ Lemma ok_noemit s f v c : S1 s ->
 Proof.
   intros [Hb Ht Htl Hd He]. unfold on_ev. cbn [ek]. unfold flush, apply_ev. cbn [bout eemit]. rewrite Hb. cbn.
   eexists. split; [reflexivity|].
-  split; [constructor; cbn; auto|]. split; [split; cbn; auto using app_nil_r|]. split; reflexivity.
+  split; [constructor; cbn; auto|].
+  split; [refine (conj _ (conj _ _)); cbn; auto using app_nil_r|]. split; reflexivity.
 Qed.
 
 (* a call that succeeds and produces output: the output is flushed *)
 Lemma ok_emit s f v em : S1 s ->
   exists s', on_ev (apply_ev s f (mkev KOk v 0 em)) (mkev KOk v 0 em) = (s', Done (RVal v)) /\
              S1 s' /\ std s' = std s /\ produced s' = produced s ++ em /\
-             bin s' = bin s /\ rxs s' = rxs s.
+             bin s' = bin s /\ rxs s' = rxs s /\ bin_eof s' = bin_eof s.
 Proof.
   intros [Hb Ht Htl Hd He]. unfold on_ev. cbn [ek]. unfold flush, apply_ev. cbn [bout eemit]. rewrite Hb. cbn [app].
   destruct em as [|x em].
@@ -713,12 +797,6 @@ Proof.
   - unfold do_send. cbn [txs]. rewrite Ht. cbn.
     eexists. split; [reflexivity|]. split; [constructor; cbn; auto|]. repeat split; auto.
 Qed.
-
-(* a fatal answer *)
-Lemma fatal_ev s f k r : 
-  on_ev (apply_ev s f (mkev k [] 0 [])) (mkev k [] 0 []) = (both_eof (apply_ev s f (mkev k [] 0 [])), Done r) ->
-  same s (both_eof (apply_ev s f (mkev k [] 0 []))).
-Proof. intros _. split; cbn; auto using app_nil_r. Qed.
 
 Definition alive (m : nat) (ib pb : list byte) (pc : bool) : tobj := mkt m true true ib pb pc false false.
 
@@ -728,8 +806,12 @@ Record J (fuel D : nat) (frs : list (list byte)) (ib pb : list byte) (pc : bool)
   J_ne : Forall (fun c => c <> []) frs;
   J_open : pc = false ->
            exists tl, concat (map rec1 frs) ++ close_rec = (ib ++ bin s ++ rx_bytes (rxs s)) ++ tl /\ length tl = D;
-  J_closed : pc = true -> frs = [] /\ pb = [] /\ D = 0
+  J_closed : pc = true -> frs = [] /\ pb = [] /\ D = 0;
+  J_noeof : std s = false -> bin_eof s = false    (* a ragged end never reaches the SSL object *)
 }.
+
+Lemma noeof_same s s' : same s s' -> (std s = false -> bin_eof s = false) -> std s' = false -> bin_eof s' = false.
+Proof. intros (H1 & _ & H3) H H'. rewrite H3 by congruence. apply H. congruence. Qed.
 
 Lemma rec1_shape c more : rec1 c ++ more = 1 :: length (map S c) :: map S c ++ more.
 Proof. unfold rec1. now rewrite map_length. Qed.
@@ -767,9 +849,11 @@ Lemma recv_step m fuel D frs ib pb pc s n :
     ( (exists v frs' ib' pb', r = RVal v /\ v <> [] /\ o' = alive m ib' pb' false /\ J fuel D frs' ib' pb' false s' /\
                               pb ++ concat frs = v ++ pb' ++ concat frs')
    \/ (r = REndOfStream /\ D = 0 /\ pb = [] /\ frs = [] /\ exists ib', o' = alive m ib' [] true /\ J fuel 0 [] ib' [] true s')
-   \/ (r = (if std s then RBroken else REndOfStream) /\ 0 < D /\ pb = [] /\ dead o' = true) ).
+   \/ (std s = true /\ r = RBroken /\ 0 < D /\ pb = [] /\ dead o' = true)
+   \/ (std s = false /\ r = REndOfStream /\ 0 < D /\ pb = [] /\ (D <= 2 -> frs = []) /\
+       exists ib', o' = alive m ib' [] false /\ J fuel D frs ib' [] false s') ).
 Proof.
-  intros HJ. destruct HJ as [H1 Hfuel Hne Hopen Hclosed].
+  intros HJ. destruct HJ as [H1 Hfuel Hne Hopen Hclosed Hnoeof].
   destruct fuel as [|k]; [lia|].
   unfold tstep. cbn [step].
   destruct pb as [|x pb].
@@ -779,6 +863,7 @@ Proof.
       rewrite pump_S, toy_read_closed.
       destruct (ok_noemit s (FRead (S n)) [] 0 H1) as (s' & Hev & H1' & Hs & Hb & Hr). rewrite Hev.
       exists (alive m ib [] true), s', REndOfStream. split; [reflexivity|]. split; [exact Hs|].
+      pose proof (noeof_same _ _ Hs Hnoeof) as Hno'.
       right. left. repeat split; auto. exists ib. split; [reflexivity|].
       constructor; auto; try discriminate. rewrite Hr. exact Hfuel.
     + (* wait for the next record *)
@@ -795,9 +880,27 @@ Proof.
           + right. exists c, frs'. auto. }
       destruct Hshape as (t & p & more & Hsh & Hcases).
       destruct (fill_loop m true (FRead (S n)) t p more Hw (rxs s) ib s (S k) H1 eq_refl) as
-        (ib2 & s2 & fuel2 & Hpump & H12 & Hs2 & Hst2 & Hlen & Hcase).
+        (ib2 & s2 & H12 & Hs2 & Hst2 & Hlen & Hcase).
       { exists tl. rewrite <- Hsh, Hstream. now rewrite <- !app_assoc. }
       { exact Hfuel. }
+      pose proof (noeof_same _ _ Hs2 Hnoeof) as Hno2.
+      assert (Hshort : forall X : list nat, length X < 2 + length p ->
+                length (concat (map rec1 frs) ++ close_rec) = length X + D -> 0 < D /\ (D <= 2 -> frs = [])).
+      { intros X HX HL. rewrite Hsh in HL. cbn [length] in HL. rewrite app_length in HL. split; [lia|].
+        intros HD. destruct Hcases as [(E & _)|(c & frs' & _ & _ & _ & Em)]; [exact E|].
+        rewrite Em in HL. rewrite app_length in HL. cbn [close_rec length] in HL. lia. }
+      destruct Hcase as [(fuel2 & Hpump & Hcase)|(Hsf & Hpump & Hc & Hb2 & Hrx2)]; cycle 1.
+      { (* not standard_compatible: the transport ended inside a record: plain EndOfStream, nothing is poisoned *)
+        rewrite Hpump.
+        assert (Hlen2 : length (concat (map rec1 frs) ++ close_rec) = length ib2 + D).
+        { rewrite Hstream, <- Hst2, Hb2, Hrx2. cbn [rx_bytes app]. rewrite app_nil_r, app_length. lia. }
+        destruct (Hshort ib2 Hc Hlen2) as [HD0 HD2].
+        exists (tob m true ib2), s2, REndOfStream. split; [reflexivity|]. split; [exact Hs2|].
+        right. right. right. refine (conj Hsf (conj eq_refl (conj HD0 (conj eq_refl (conj HD2 _))))).
+        exists ib2. split; [reflexivity|].
+        constructor; auto; try discriminate.
+        - rewrite Hrx2. cbn. lia.
+        - intros _. exists tl. split; [|exact Htl]. rewrite Hstream, <- Hst2. reflexivity. }
       rewrite Hpump, pump_S.
       destruct Hcase as [Hc|(Hc & Heof & Hrx2)].
       * (* the record is complete *)
@@ -820,6 +923,7 @@ Proof.
            { destruct rest; [|discriminate]. destruct (rx_bytes (rxs s2)); [|discriminate].
              destruct tl; [|discriminate]. cbn in Htl. auto. }
            destruct Htl0 as [-> <-].
+           pose proof (noeof_same _ _ Hs Hno2) as Hno'.
            exists (alive m rest [] true), s', REndOfStream.
            split; [reflexivity|]. split; [apply (same_trans _ _ _ Hs2 Hs)|].
            right. left. repeat split; auto. exists rest. split; [reflexivity|].
@@ -831,6 +935,7 @@ Proof.
            rewrite (toy_read_data m ib2 (S n) (bin s2) (bin_eof s2) y c rest Hparse).
            destruct (ok_noemit s2 (FRead (S n)) (firstn (S n) (y :: c)) (length (bin s2)) H12) as (s' & Hev & H1' & Hs & Hb & Hr).
            rewrite Hev. rewrite skipn_all in Hb. cbn [firstn].
+           pose proof (noeof_same _ _ Hs Hno2) as Hno'.
            exists (alive m rest (skipn (S n) (y :: c)) false), s', (RVal (y :: firstn n c)).
            split; [reflexivity|]. split; [apply (same_trans _ _ _ Hs2 Hs)|].
            left. exists (y :: firstn n c), frs', rest, (skipn (S n) (y :: c)).
@@ -845,21 +950,23 @@ Proof.
           exists (rx_bytes (rxs s2) ++ tl). rewrite <- Hsh, Hstream, <- Hst2. now rewrite <- !app_assoc. }
         rewrite (toy_incomplete m true (FRead (S n)) ib2 (bin s2) (bin_eof s2) Hw Hp), Heof.
         unfold on_ev. cbn [ek].
-        destruct Hs2 as [Hstd Hprod].
-        exists (kill (tob m true ib2)), (both_eof (apply_ev s2 (FRead (S n)) (mkev KEofStr [] 0 []))),
-               (if std s then RBroken else REndOfStream).
+        destruct Hs2 as (Hstd & Hprod & Hbe).
+        assert (Hst : std s = true).
+        { destruct (std s) eqn:Es; [reflexivity|]. rewrite (Hbe eq_refl), (Hnoeof eq_refl) in Heof. discriminate. }
+        exists (kill (tob m true ib2)), (both_eof (apply_ev s2 (FRead (S n)) (mkev KEofStr [] 0 []))), RBroken.
         split.
-        { cbn [std apply_ev]. rewrite Hstd. destruct (std s); reflexivity. }
-        split; [split; cbn; [exact Hstd|rewrite app_nil_r; exact Hprod]|].
-        right. right. repeat split; auto.
+        { cbn [std apply_ev]. rewrite Hstd, Hst. reflexivity. }
+        split; [refine (conj _ (conj _ _)); cbn; [exact Hstd|rewrite app_nil_r; exact Hprod|congruence]|].
         assert (Hlen2 : length (concat (map rec1 frs) ++ close_rec) = length (ib2 ++ bin s2) + D).
         { rewrite Hstream, <- Hst2, Hrx2. cbn [rx_bytes]. rewrite app_nil_r, app_length. lia. }
-        rewrite Hsh in Hlen2. cbn [length] in Hlen2. rewrite app_length in Hlen2. lia.
+        destruct (Hshort _ Hc Hlen2) as [HD0 _].
+        right. right. left. repeat split; auto.
   - (* buffered plaintext *)
     assert (pc = false) as -> by (destruct pc; [destruct (Hclosed eq_refl) as (_ & E & _); discriminate|reflexivity]).
     rewrite pump_S, toy_read_buffered.
     destruct (ok_noemit s (FRead (S n)) (firstn (S n) (x :: pb)) 0 H1) as (s' & Hev & H1' & Hs & Hb & Hr).
     rewrite Hev. cbn [firstn].
+    pose proof (noeof_same _ _ Hs Hnoeof) as Hno'.
     exists (alive m ib (skipn (S n) (x :: pb)) false), s', (RVal (x :: firstn n pb)).
     split; [reflexivity|]. split; [exact Hs|].
     left. exists (x :: firstn n pb), frs, ib, (skipn (S n) (x :: pb)).
@@ -875,47 +982,42 @@ Lemma send_step m fuel D frs ib pb pc s item :
   exists s', tstep fuel (alive m ib pb pc, s) (OSend item) = ((alive m ib pb pc, s'), RVal []) /\
              J fuel D frs ib pb pc s' /\ std s' = std s /\ produced s' = produced s ++ records m item.
 Proof.
-  intros [H1 Hfuel Hne Hopen Hclosed]. destruct fuel as [|k]; [lia|].
+  intros [H1 Hfuel Hne Hopen Hclosed Hnoeof]. destruct fuel as [|k]; [lia|].
   unfold tstep. cbn [step]. rewrite pump_S, toy_write_alive.
-  destruct (ok_emit s (FWrite item) [length item] (records m item) H1) as (s' & Hev & H1' & Hstd & Hprod & Hb & Hr).
+  destruct (ok_emit s (FWrite item) [length item] (records m item) H1) as (s' & Hev & H1' & Hstd & Hprod & Hb & Hr & Hbe).
   rewrite Hev. exists s'. split; [reflexivity|]. split; [|auto].
   constructor; auto.
   - rewrite Hr. exact Hfuel.
   - intros E. rewrite Hb, Hr. auto.
+  - intros E. rewrite Hbe. apply Hnoeof. congruence.
 Qed.
 
 Definition sendrecv (a : op) : bool := match a with OReceive _ | OSend _ => true | _ => false end.
 
-Lemma dead_step fuel o s a : dead o = true -> sendrecv a = true -> 1 <= fuel ->
-  exists s' r, tstep fuel (o, s) a = ((o, s'), r) /\ (r = RSslOther \/ r = RValueError) /\ same s s'.
+(* an SSL object that reported a fatal error, or whose handshake never completed, refuses read and write *)
+Definition unusable (o : tobj) : Prop := dead o = true \/ hs_done o = false.
+
+Lemma toy_unusable o f b be : unusable o -> (exists n, f = FRead n) \/ (exists item, f = FWrite item) ->
+  exists o', toy_call o f b be = Some (o', mkev KOther [] 0 []) /\ unusable o'.
+Proof.
+  intros Hu Hf. unfold toy_call. destruct (dead o) eqn:Ed.
+  - exists o. split; [reflexivity|]. now left.
+  - destruct Hu as [Hu|Hu]; [congruence|].
+    destruct Hf as [[n ->]|[item ->]]; rewrite Hu; cbn; exists (kill o); (split; [reflexivity|]); now left.
+Qed.
+
+Lemma dead_step fuel o s a : unusable o -> sendrecv a = true -> 1 <= fuel ->
+  exists o' s' r, tstep fuel (o, s) a = ((o', s'), r) /\ unusable o' /\ (r = RSslOther \/ r = RValueError) /\ same0 s s'.
 Proof.
   intros Hd Ha Hf. destruct fuel as [|k]; [lia|]. destruct a as [|n|item| |]; try discriminate.
   - destruct n as [|n].
-    + exists s, RValueError. cbn. auto using same_refl.
-    + unfold tstep. cbn [step]. rewrite pump_S, (toy_dead o _ _ _ Hd). unfold on_ev. cbn [ek].
-      eexists _, RSslOther. split; [reflexivity|]. split; [auto|]. split; cbn; auto using app_nil_r.
-  - unfold tstep. cbn [step]. rewrite pump_S, (toy_dead o _ _ _ Hd). unfold on_ev. cbn [ek].
-    eexists _, RSslOther. split; [reflexivity|]. split; [auto|]. split; cbn; auto using app_nil_r.
-Qed.
-
-Lemma dead_run fuel ops : forallb sendrecv ops = true -> 1 <= fuel ->
-  forall o s, dead o = true ->
-  Forall (fun r => r = RSslOther \/ r = RValueError) (snd (trun fuel (o, s) ops)) /\
-  received ops (snd (trun fuel (o, s) ops)) = [] /\
-  accepted ops (snd (trun fuel (o, s) ops)) = [] /\
-  same s (snd (fst (trun fuel (o, s) ops))).
-Proof.
-  intros Hops Hf. induction ops as [|a ops IH]; intros o s Hd.
-  - cbn. auto using same_refl.
-  - cbn in Hops. apply andb_prop in Hops. destruct Hops as [Ha Hops].
-    destruct (dead_step fuel o s a Hd Ha Hf) as (s' & r & Hst & Hr & Hs).
-    unfold trun, run. cbn [run_ops]. fold (tstep fuel (o, s) a). rewrite Hst.
-    specialize (IH Hops o s' Hd). unfold trun, run in IH.
-    destruct (run_ops (step tobj toy_call fuel) (o, s') ops) as [w' rs]. cbn [fst snd] in *.
-    destruct IH as (I1 & I2 & I3 & I4).
-    split; [constructor; assumption|]. split; [|split; [|apply (same_trans _ _ _ Hs I4)]].
-    + destruct a; try discriminate; destruct Hr as [-> | ->]; exact I2.
-    + destruct a; try discriminate; destruct Hr as [-> | ->]; exact I3.
+    + exists o, s, RValueError. cbn. auto using same0_refl.
+    + destruct (toy_unusable o (FRead (S n)) (bin s) (bin_eof s) Hd) as (o' & Hc & Hu); [left; eauto|].
+      unfold tstep. cbn [step]. rewrite pump_S, Hc. unfold on_ev. cbn [ek].
+      eexists o', _, RSslOther. split; [reflexivity|]. split; [exact Hu|]. split; [auto|]. split; cbn; auto using app_nil_r.
+  - destruct (toy_unusable o (FWrite item) (bin s) (bin_eof s) Hd) as (o' & Hc & Hu); [right; eauto|].
+    unfold tstep. cbn [step]. rewrite pump_S, Hc. unfold on_ev. cbn [ek].
+    eexists o', _, RSslOther. split; [reflexivity|]. split; [exact Hu|]. split; [auto|]. split; cbn; auto using app_nil_r.
 Qed.
 
 Lemma trun_cons fuel w a ops :
@@ -923,19 +1025,41 @@ Lemma trun_cons fuel w a ops :
   let '(w1, r) := tstep fuel w a in let '(w2, rs) := trun fuel w1 ops in (w2, r :: rs).
 Proof. reflexivity. Qed.
 
+Lemma dead_run fuel ops : forallb sendrecv ops = true -> 1 <= fuel ->
+  forall o s, unusable o ->
+  Forall (fun r => r = RSslOther \/ r = RValueError) (snd (trun fuel (o, s) ops)) /\
+  received ops (snd (trun fuel (o, s) ops)) = [] /\
+  accepted ops (snd (trun fuel (o, s) ops)) = [] /\
+  same0 s (snd (fst (trun fuel (o, s) ops))).
+Proof.
+  intros Hops Hf. induction ops as [|a ops IH]; intros o s Hd.
+  - cbn. auto using same0_refl.
+  - cbn in Hops. apply andb_prop in Hops. destruct Hops as [Ha Hops].
+    destruct (dead_step fuel o s a Hd Ha Hf) as (o' & s' & r & Hst & Hu & Hr & Hs).
+    rewrite trun_cons, Hst. cbv beta iota.
+    specialize (IH Hops o' s' Hu).
+    destruct (trun fuel (o', s') ops) as [w' rs]. cbn [fst snd] in *.
+    destruct IH as (I1 & I2 & I3 & I4).
+    split; [constructor; assumption|]. split; [|split; [|apply (same0_trans _ _ _ Hs I4)]].
+    + destruct a; try discriminate; destruct Hr as [-> | ->]; exact I2.
+    + destruct a; try discriminate; destruct Hr as [-> | ->]; exact I3.
+Qed.
+
 Lemma run_J m fuel ops : forallb sendrecv ops = true ->
   forall D frs ib pb pc s, J fuel D frs ib pb pc s ->
   let w' := fst (trun fuel (alive m ib pb pc, s) ops) in
   let rs := snd (trun fuel (alive m ib pb pc, s) ops) in
   ~ In RStuck rs /\
   (exists rest, pb ++ concat frs = received ops rs ++ rest) /\
-  (In REndOfStream rs -> std s = true \/ D = 0 -> D = 0 /\ received ops rs = pb ++ concat frs) /\
+  (In REndOfStream rs -> std s = true -> D = 0) /\
+  (In REndOfStream rs -> std s = true \/ D <= 2 -> received ops rs = pb ++ concat frs) /\
   (In RBroken rs -> 0 < D /\ std s = true) /\
   std (snd w') = std s /\
-  produced (snd w') = produced s ++ concat (map (records m) (accepted ops rs)).
+  produced (snd w') = produced s ++ concat (map (records m) (accepted ops rs)) /\
+  (std s = false \/ D = 0 -> accepted ops rs = sends_of ops).
 Proof.
   intros Hops. induction ops as [|a ops IH]; intros D frs ib pb pc s HJ; cbn zeta.
-  - cbn. refine (conj _ (conj _ (conj _ (conj _ (conj eq_refl _))))); try tauto.
+  - cbn. refine (conj _ (conj _ (conj _ (conj _ (conj _ (conj eq_refl (conj _ _))))))); try tauto.
     + exists (pb ++ concat frs). reflexivity.
     + now rewrite app_nil_r.
   - cbn in Hops. apply andb_prop in Hops. destruct Hops as [Ha Hops]. specialize (IH Hops).
@@ -946,68 +1070,87 @@ Proof.
       * (* receive(0): ValueError, nothing happens *)
         change (tstep fuel (alive m ib pb pc, s) (OReceive 0)) with ((alive m ib pb pc, s), RValueError). cbv beta iota.
         specialize (IH D frs ib pb pc s HJ). cbn zeta in IH.
-        destruct (trun fuel (alive m ib pb pc, s) ops) as [w' rs]. cbn [fst snd] in *. cbn [received accepted].
-        destruct IH as (I1 & I2 & I3 & I4 & I5 & I6).
-        refine (conj _ (conj I2 (conj _ (conj _ (conj I5 I6))))).
+        destruct (trun fuel (alive m ib pb pc, s) ops) as [w' rs]. cbn [fst snd] in *. cbn [received accepted sends_of].
+        destruct IH as (I1 & I2 & I3 & I3b & I4 & I5 & I6 & I7).
+        refine (conj _ (conj I2 (conj _ (conj _ (conj _ (conj I5 (conj I6 I7))))))).
+        -- intros [H|H]; [discriminate|auto].
         -- intros [H|H]; [discriminate|auto].
         -- intros [H|H]; [discriminate|auto].
         -- intros [H|H]; [discriminate|auto].
       * destruct (recv_step m fuel D frs ib pb pc s n HJ) as (o' & s' & r & Hst & Hs & Hcase). rewrite Hst. cbv beta iota.
-        destruct Hs as [Hstd Hprod].
-        destruct Hcase as [(v & frs' & ib' & pb' & -> & Hv & -> & HJ' & Hpl)|[(-> & -> & -> & -> & ib' & -> & HJ')|(-> & HD & -> & Hdead)]].
+        destruct Hs as (Hstd & Hprod & _).
+        destruct Hcase as [(v & frs' & ib' & pb' & -> & Hv & -> & HJ' & Hpl)|[(-> & -> & -> & -> & ib' & -> & HJ')|
+                           [(Hst1 & -> & HD & -> & Hdead)|(Hsf & -> & HD & -> & HD2 & ib' & -> & HJ')]]].
         -- (* data *)
            specialize (IH D frs' ib' pb' false s' HJ'). cbn zeta in IH.
-           destruct (trun fuel (alive m ib' pb' false, s') ops) as [w' rs]. cbn [fst snd] in *. cbn [received accepted].
-           destruct IH as (I1 & (rest & I2) & I3 & I4 & I5 & I6).
-           refine (conj _ (conj _ (conj _ (conj _ (conj _ _))))).
+           destruct (trun fuel (alive m ib' pb' false, s') ops) as [w' rs]. cbn [fst snd] in *. cbn [received accepted sends_of].
+           destruct IH as (I1 & (rest & I2) & I3 & I3b & I4 & I5 & I6 & I7).
+           refine (conj _ (conj _ (conj _ (conj _ (conj _ (conj _ (conj _ _))))))).
            ++ intros [H|H]; [discriminate|auto].
            ++ exists rest. rewrite Hpl, I2. now rewrite <- app_assoc.
-           ++ intros [H|H]; [discriminate|]. intros Hc. rewrite Hstd in I3. destruct (I3 H Hc) as [HD0 Hrc].
-              split; [exact HD0|]. rewrite Hpl, Hrc. reflexivity.
+           ++ intros [H|H]; [discriminate|]. rewrite <- Hstd. auto.
+           ++ intros [H|H]; [discriminate|]. intros Hc. rewrite Hstd in I3b. rewrite Hpl, (I3b H Hc). reflexivity.
            ++ intros [H|H]; [discriminate|]. rewrite <- Hstd. auto.
            ++ congruence.
            ++ rewrite I6, Hprod. reflexivity.
+           ++ rewrite <- Hstd. exact I7.
         -- (* clean end *)
            specialize (IH 0 [] ib' [] true s' HJ'). cbn zeta in IH.
-           destruct (trun fuel (alive m ib' [] true, s') ops) as [w' rs]. cbn [fst snd] in *. cbn [received accepted].
-           destruct IH as (I1 & (rest & I2) & I3 & I4 & I5 & I6).
+           destruct (trun fuel (alive m ib' [] true, s') ops) as [w' rs]. cbn [fst snd] in *. cbn [received accepted sends_of].
+           destruct IH as (I1 & (rest & I2) & I3 & I3b & I4 & I5 & I6 & I7).
            assert (Hrc : received ops rs = []).
            { cbn in I2. symmetry in I2. apply app_eq_nil in I2. tauto. }
-           refine (conj _ (conj _ (conj _ (conj _ (conj _ _))))).
+           refine (conj _ (conj _ (conj _ (conj _ (conj _ (conj _ (conj _ _))))))).
            ++ intros [H|H]; [discriminate|auto].
            ++ exists []. cbn. now rewrite Hrc.
-           ++ intros _ _. split; [reflexivity|]. cbn. exact Hrc.
+           ++ intros _ _. reflexivity.
+           ++ intros _ _. cbn. exact Hrc.
            ++ intros [H|H]; [discriminate|]. rewrite <- Hstd. auto.
            ++ congruence.
            ++ rewrite I6, Hprod. reflexivity.
-        -- (* truncated *)
-           destruct (dead_run fuel ops Hops Hfuel1 o' s' Hdead) as (D1 & D2 & D3 & D4).
-                      destruct (trun fuel (o', s') ops) as [w' rs]. cbn [fst snd] in *. cbn [received accepted].
+           ++ intros _. apply I7. now right.
+        -- (* truncated, standard_compatible: the SSL object has reported the fatal error *)
+           destruct (dead_run fuel ops Hops Hfuel1 o' s' (or_introl Hdead)) as (D1 & D2 & D3 & D4).
+           destruct (trun fuel (o', s') ops) as [w' rs]. cbn [fst snd] in *. cbn [received accepted sends_of].
            destruct D4 as [D4 D5].
            assert (Hno : forall x, In x rs -> x = RSslOther \/ x = RValueError).
            { rewrite Forall_forall in D1. exact D1. }
-           refine (conj _ (conj _ (conj _ (conj _ (conj _ _))))).
-           ++ intros [H|H]; [destruct (std s); discriminate|]. destruct (Hno _ H); discriminate.
-           ++ exists (concat frs). cbn. destruct (std s); cbn; now rewrite D2.
-           ++ intros [H|H] Hc.
-              ** destruct (std s); [discriminate|]. destruct Hc; [discriminate|lia].
-              ** destruct (Hno _ H); discriminate.
-           ++ intros [H|H].
-              ** destruct (std s); [auto|discriminate].
-              ** destruct (Hno _ H); discriminate.
+           refine (conj _ (conj _ (conj _ (conj _ (conj _ (conj _ (conj _ _))))))).
+           ++ intros [H|H]; [discriminate|]. destruct (Hno _ H); discriminate.
+           ++ exists (concat frs). cbn. now rewrite D2.
+           ++ intros [H|H]; [discriminate|]. destruct (Hno _ H); discriminate.
+           ++ intros [H|H]; [discriminate|]. destruct (Hno _ H); discriminate.
+           ++ intros _. auto.
            ++ congruence.
-           ++ destruct (std s); cbn; rewrite D3; cbn; rewrite app_nil_r; congruence.
+           ++ rewrite D3. cbn. rewrite app_nil_r. congruence.
+           ++ intros [H|H]; [congruence|lia].
+        -- (* truncated, not standard_compatible: plain EndOfStream, the endpoint stays usable *)
+           specialize (IH D frs ib' [] false s' HJ'). cbn zeta in IH.
+           destruct (trun fuel (alive m ib' [] false, s') ops) as [w' rs]. cbn [fst snd] in *. cbn [received accepted sends_of].
+           destruct IH as (I1 & (rest & I2) & I3 & I3b & I4 & I5 & I6 & I7).
+           refine (conj _ (conj _ (conj _ (conj _ (conj _ (conj _ (conj _ _))))))).
+           ++ intros [H|H]; [discriminate|auto].
+           ++ exists rest. exact I2.
+           ++ intros _ Hc. congruence.
+           ++ intros _ [Hc|Hc]; [congruence|]. rewrite (HD2 Hc) in *. cbn in *.
+              symmetry in I2. apply app_eq_nil in I2. tauto.
+           ++ intros [H|H]; [discriminate|]. rewrite <- Hstd. auto.
+           ++ congruence.
+           ++ rewrite I6, Hprod. reflexivity.
+           ++ rewrite <- Hstd. exact I7.
     + (* send *)
       destruct (send_step m fuel D frs ib pb pc s item HJ) as (s' & Hst & HJ' & Hstd & Hprod). rewrite Hst. cbv beta iota.
       specialize (IH D frs ib pb pc s' HJ'). cbn zeta in IH.
-      destruct (trun fuel (alive m ib pb pc, s') ops) as [w' rs]. cbn [fst snd] in *. cbn [received accepted].
-      destruct IH as (I1 & I2 & I3 & I4 & I5 & I6).
-      refine (conj _ (conj I2 (conj _ (conj _ (conj _ _))))).
+      destruct (trun fuel (alive m ib pb pc, s') ops) as [w' rs]. cbn [fst snd] in *. cbn [received accepted sends_of].
+      destruct IH as (I1 & I2 & I3 & I3b & I4 & I5 & I6 & I7).
+      refine (conj _ (conj I2 (conj _ (conj _ (conj _ (conj _ (conj _ _))))))).
       * intros [H|H]; [discriminate|auto].
+      * intros [H|H]; [discriminate|]. rewrite <- Hstd. auto.
       * intros [H|H]; [discriminate|]. rewrite <- Hstd. auto.
       * intros [H|H]; [discriminate|]. rewrite <- Hstd. auto.
       * congruence.
       * rewrite I6, Hprod. cbn [map concat]. now rewrite <- app_assoc.
+      * intros Hc. rewrite I7; [reflexivity|]. now rewrite Hstd.
 Qed.
 
 (* ---- the handshake ---- *)
@@ -1020,14 +1163,17 @@ Proof. induction l as [|d l IH]; cbn; auto. Qed.
 Definition ep0 (sc : bool) (chunks : list (list byte)) : pst := init_pst sc (map RxData chunks) (Some RxEof) [].
 
 Lemma hs_first sc chunks :
-  exists s1, on_ev (apply_ev (ep0 sc chunks) FHandshake (mkev KWantRead [] 0 hello_rec)) (mkev KWantRead [] 0 hello_rec)
-             = (s1, Again) /\
-    S1 s1 /\ std s1 = sc /\ produced s1 = hello_rec /\ sendfail s1 = false /\
-    bin s1 ++ rx_bytes (rxs s1) = concat chunks /\ length (rxs s1) <= length chunks.
+  exists s1 nx, on_ev (apply_ev (ep0 sc chunks) FHandshake (mkev KWantRead [] 0 hello_rec)) (mkev KWantRead [] 0 hello_rec)
+             = (s1, nx) /\
+    S1 s1 /\ std s1 = sc /\ produced s1 = hello_rec /\ (sc = false -> bin_eof s1 = false) /\
+    bin s1 ++ rx_bytes (rxs s1) = concat chunks /\ length (rxs s1) <= length chunks /\
+    (nx = Again \/ (nx = Done REndOfStream /\ sc = false /\ chunks = [])).
 Proof.
   destruct chunks as [|d rest].
-  - eexists. split; [reflexivity|]. cbn. repeat split; auto; try discriminate.
-  - eexists. split; [reflexivity|]. cbn. repeat split; auto; try discriminate;
+  - destruct sc.
+    + eexists _, _. split; [reflexivity|]. cbn. repeat split; auto; try discriminate.
+    + eexists _, _. split; [reflexivity|]. cbn. repeat split; auto; try discriminate.
+  - eexists _, _. split; [reflexivity|]. cbn. repeat split; auto; try discriminate;
       try apply all_data_map; try (now rewrite rx_bytes_data); try (change (length (map RxData rest) <= S (length rest)); rewrite map_length; lia).
 Qed.
 
@@ -1046,20 +1192,37 @@ Lemma hs_step m sc chunks D frs fuel :
   exists o' s' r, tstep fuel (init_tobj m, ep0 sc chunks) OHandshake = ((o', s'), r) /\
     std s' = sc /\ produced s' = hello_rec /\
     ( (r = RVal [] /\ exists ib', o' = alive m ib' [] false /\ J fuel D frs ib' [] false s')
-   \/ (r = (if sc then RBroken else REndOfStream) /\ 0 < D /\ dead o' = true) ).
+   \/ (r = (if sc then RBroken else REndOfStream) /\ 0 < D /\ unusable o' /\ length (concat chunks) < 2) ).
 Proof.
   intros Hne (tl & Hw & Htl) Hfuel. destruct fuel as [|k]; [lia|].
   unfold tstep. cbn [step]. rewrite pump_S.
   change (bin (ep0 sc chunks)) with (@nil nat). change (bin_eof (ep0 sc chunks)) with false.
   rewrite (toy_hs_first m).
-  destruct (hs_first sc chunks) as (s1 & Hev & H1 & Hstd & Hprod & _ & Hstream & Hlen). rewrite Hev.
+  destruct (hs_first sc chunks) as (s1 & nx & Hev & H1 & Hstd & Hprod & Hno1 & Hstream & Hlen & Hnx). rewrite Hev.
   assert (Hw0 : waits false FHandshake) by (left; auto).
+  assert (Htot : length (hello_rec ++ concat (map rec1 frs) ++ close_rec) = length (concat chunks) + D).
+  { rewrite Hw, app_length. lia. }
+  assert (Htot2 : 4 <= length (hello_rec ++ concat (map rec1 frs) ++ close_rec)).
+  { rewrite !app_length. cbn. lia. }
+  destruct Hnx as [-> | (-> & -> & ->)]; cycle 1.
+  { (* no byte at all, not standard_compatible *)
+    exists (tob m false []), s1, REndOfStream. split; [reflexivity|]. split; [exact Hstd|]. split; [exact Hprod|].
+    right. cbn in Htot. repeat split; auto; [lia|now right]. }
   destruct (fill_loop m false FHandshake 0 [] (concat (map rec1 frs) ++ close_rec) Hw0 (rxs s1) [] s1 k H1 eq_refl)
-    as (ib2 & s2 & fuel2 & Hpump & H12 & Hs2 & Hst2 & Hlen2 & Hcase).
+    as (ib2 & s2 & H12 & Hs2 & Hst2 & Hlen2 & Hcase).
   { exists tl. cbn [app]. rewrite Hstream. exact Hw. }
   { lia. }
-  rewrite Hpump, pump_S. destruct Hs2 as [Hstd2 Hprod2].
+  pose proof Hs2 as (Hstd2 & Hprod2 & Hbe2).
   cbn [app] in Hst2. rewrite Hstream in Hst2.
+  destruct Hcase as [(fuel2 & Hpump & Hcase)|(Hsf & Hpump & Hc & Hb2 & Hrx2)]; cycle 1.
+  { (* not standard_compatible: the transport ended inside the handshake *)
+    rewrite Hpump. exists (tob m false ib2), s2, REndOfStream.
+    assert (Esc : sc = false) by congruence. rewrite Esc.
+    split; [reflexivity|]. split; [congruence|]. split; [congruence|].
+    assert (El : length (concat chunks) = length ib2).
+    { rewrite <- Hst2, Hb2, Hrx2. cbn [rx_bytes app]. now rewrite app_nil_r. }
+    cbn [length] in Hc. right. repeat split; auto; [lia|now right|lia]. }
+  rewrite Hpump, pump_S.
   destruct Hcase as [Hc|(Hc & Heof & Hrx2)].
   - destruct (prefix_split (ib2 ++ bin s2) [0; 0] (concat (map rec1 frs) ++ close_rec)) as (rest & Hib & Hrest).
     { exists (rx_bytes (rxs s2) ++ tl). change ([0; 0] ++ ?x) with (hello_rec ++ x).
@@ -1069,7 +1232,9 @@ Proof.
     { rewrite Hib. apply (parse_complete 0 [] rest). }
     rewrite (toy_hs_done m ib2 (bin s2) (bin_eof s2) rest Hparse).
     destruct (ok_noemit s2 FHandshake [] (length (bin s2)) H12) as (s' & Hev' & H1' & Hs & Hb & Hr).
-    rewrite Hev'. rewrite skipn_all in Hb. destruct Hs as [Hstd3 Hprod3].
+    rewrite Hev'. rewrite skipn_all in Hb. pose proof Hs as (Hstd3 & Hprod3 & Hbe3).
+    assert (Hno' : std s' = false -> bin_eof s' = false).
+    { apply (noeof_same _ _ Hs). apply (noeof_same _ _ Hs2). intros E. apply Hno1. congruence. }
     exists (alive m rest [] false), s', (RVal []).
     split; [reflexivity|]. split; [congruence|]. split; [congruence|].
     left. split; [reflexivity|]. exists rest. split; [reflexivity|].
@@ -1086,15 +1251,16 @@ Proof.
       rewrite Hw, <- Hst2. now rewrite <- !app_assoc. }
     rewrite (toy_incomplete m false FHandshake ib2 (bin s2) (bin_eof s2) Hw0 Hp), Heof.
     unfold on_ev. cbn [ek].
-    exists (kill (tob m false ib2)), (both_eof (apply_ev s2 FHandshake (mkev KEofCls [] 0 []))),
-           (if sc then RBroken else REndOfStream).
+    assert (Esc : sc = true).
+    { destruct sc; [reflexivity|]. rewrite Hbe2 in Heof by congruence. rewrite Hno1 in Heof by reflexivity. discriminate. }
+    rewrite Esc.
+    exists (kill (tob m false ib2)), (both_eof (apply_ev s2 FHandshake (mkev KEofCls [] 0 []))), RBroken.
     split.
-    { cbn [std apply_ev]. rewrite Hstd2, Hstd. destruct sc; reflexivity. }
+    { cbn [std apply_ev]. rewrite Hstd2, Hstd, Esc. reflexivity. }
     split; [cbn; congruence|]. split; [cbn; rewrite app_nil_r; congruence|].
-    right. repeat split; auto.
-    assert (E : length (hello_rec ++ concat (map rec1 frs) ++ close_rec) = length (ib2 ++ bin s2) + D).
-    { rewrite Hw, <- Hst2, Hrx2. cbn [rx_bytes]. rewrite app_nil_r, app_length. lia. }
-    rewrite app_length in E. cbn [length hello_rec] in E. cbn [length] in Hc. lia.
+    assert (El : length (concat chunks) = length (ib2 ++ bin s2)).
+    { rewrite <- Hst2, Hrx2. cbn [rx_bytes]. now rewrite app_nil_r. }
+    cbn [length] in Hc. right. repeat split; auto; [lia|now left|lia].
 Qed.
 
 (* ---- a transport whose send() never fails: nothing is ever dropped ---- *)
@@ -1109,8 +1275,8 @@ Proof. intros H. unfold flush. destruct (bout s); [auto|apply do_send_nf, H]. Qe
 Lemma do_recv_nf s : NF s -> NF (fst (do_recv s)).
 Proof.
   intros H. unfold do_recv, pop_rx. destruct (rxs s) as [|r rest].
-  - destruct (rx_tail s) as [r|]; [|exact H]. destruct r; cbn; try exact H. destruct (bin_eof s); exact H.
-  - destruct r; cbn; try exact H. destruct (bin_eof s); exact H.
+  - destruct (rx_tail s) as [r|]; [|exact H]. destruct r; cbn; try exact H; case_ifs; exact H.
+  - destruct r; cbn; try exact H; case_ifs; exact H.
 Qed.
 
 Lemma on_ev_nf s e : NF s -> NF (fst (on_ev s e)).
@@ -1192,7 +1358,9 @@ Theorem tls_endpoint_transparent m sc pitems chunks D ops fuel :
   (In REndOfStream rs -> sc = true \/ D = 0 -> D = 0 /\ received (OHandshake :: ops) rs = concat pitems) /\
   (In RBroken rs -> 0 < D /\ sc = true) /\
   produced s' = hello_rec ++ concat (map (records m) (accepted (OHandshake :: ops) rs)) /\
-  sent_of (trace s') ++ bout s' = produced s'.
+  sent_of (trace s') ++ bout s' = produced s' /\
+  (In REndOfStream rs -> D <= 2 -> received (OHandshake :: ops) rs = concat pitems) /\
+  (sc = false \/ D = 0 -> 2 <= length (concat chunks) -> accepted (OHandshake :: ops) rs = sends_of ops).
 Proof.
   intros Hops (tl & Hw & Htl) Hfuel. cbn zeta.
   assert (Hsent : forall out, out = trun fuel (init_tobj m, ep0 sc chunks) (OHandshake :: ops) ->
@@ -1202,30 +1370,37 @@ Proof.
     pose proof (run_nf tobj toy_call fuel (OHandshake :: ops) (init_tobj m, ep0 sc chunks)) as N.
     destruct N as [_ N]; [split; reflexivity|]. symmetry. apply (I_out _ I N). }
   specialize (Hsent _ eq_refl). revert Hsent.
+  assert (Htot : 4 <= length (concat chunks) + D).
+  { rewrite <- Htl, <- app_length, <- Hw. unfold wire. rewrite !app_length. cbn. lia. }
   rewrite trun_cons.
   destruct (hs_step m sc chunks D (frs_of m pitems) fuel (frs_of_nonempty m pitems)) as (o' & s1 & r & Hst & Hstd & Hprod & Hcase).
   { exists tl. split; [|exact Htl]. rewrite <- Hw. unfold wire. now rewrite frs_of_records. }
   { exact Hfuel. }
   rewrite Hst. cbv beta iota.
   assert (Hfuel1 : 1 <= fuel) by lia.
-  destruct Hcase as [(-> & ib' & -> & HJ)|(-> & HD & Hdead)].
+  destruct Hcase as [(-> & ib' & -> & HJ)|(-> & HD & Hdead & Hshort)].
   - pose proof (run_J m fuel ops Hops D (frs_of m pitems) ib' [] false s1 HJ) as H. cbn zeta in H.
-    destruct (trun fuel (alive m ib' [] false, s1) ops) as [w' rs]. cbn [fst snd] in *. cbn [received accepted].
-    destruct H as (I1 & (rest & I2) & I3 & I4 & I5 & I6). rewrite frs_of_concat in *. cbn [app] in *.
+    destruct (trun fuel (alive m ib' [] false, s1) ops) as [w' rs]. cbn [fst snd] in *. cbn [received accepted sends_of].
+    destruct H as (I1 & (rest & I2) & I3 & I3b & I4 & I5 & I6 & I7). rewrite frs_of_concat in *. cbn [app] in *.
+    rewrite Hstd in *.
     intros Hsent.
-    refine (conj _ (conj _ (conj _ (conj _ (conj _ Hsent))))).
+    refine (conj _ (conj _ (conj _ (conj _ (conj _ (conj Hsent (conj _ _))))))).
     + intros [H|H]; [discriminate|auto].
     + exists rest. exact I2.
-    + intros [H|H]; [discriminate|]. rewrite Hstd in I3. auto.
-    + intros [H|H]; [discriminate|]. rewrite Hstd in I4. auto.
+    + intros [H|H]; [discriminate|]. intros [Hc|Hc].
+      * split; [auto|]. apply I3b; auto.
+      * split; [exact Hc|]. apply I3b; [exact H|]. right. lia.
+    + intros [H|H]; [discriminate|]. auto.
     + rewrite I6, Hprod. reflexivity.
+    + intros [H|H]; [discriminate|]. intros Hc. apply I3b; auto.
+    + intros Hc _. auto.
   - destruct (dead_run fuel ops Hops Hfuel1 o' s1 Hdead) as (D1 & D2 & D3 & D4).
-    destruct (trun fuel (o', s1) ops) as [w' rs]. cbn [fst snd] in *. cbn [received accepted].
+    destruct (trun fuel (o', s1) ops) as [w' rs]. cbn [fst snd] in *. cbn [received accepted sends_of].
     destruct D4 as [D4 D5].
     assert (Hno : forall x, In x rs -> x = RSslOther \/ x = RValueError).
     { rewrite Forall_forall in D1. exact D1. }
     intros Hsent.
-    refine (conj _ (conj _ (conj _ (conj _ (conj _ Hsent))))).
+    refine (conj _ (conj _ (conj _ (conj _ (conj _ (conj Hsent (conj _ _))))))).
     + intros [H|H]; [destruct sc; discriminate|]. destruct (Hno _ H); discriminate.
     + exists (concat pitems). destruct sc; cbn; now rewrite D2.
     + intros [H|H] Hc.
@@ -1235,6 +1410,8 @@ Proof.
       * destruct sc; [auto|discriminate].
       * destruct (Hno _ H); discriminate.
     + rewrite D3, D5, Hprod. reflexivity.
+    + intros _ Hc. lia.
+    + intros _ Hc. lia.
 Qed.
 
 (* ---- what an endpoint puts on the wire, whatever it receives ---- *)
@@ -1245,8 +1422,8 @@ Proof.
   - assert (H : produced (fst (flush s)) = produced s) by (unfold flush; destruct (bout s); reflexivity).
     destruct (flush s) as [s2 t]. cbn [fst] in H. destruct t; cbn [fst]; try exact H.
     unfold do_recv, pop_rx. destruct (rxs s2) as [|r rest].
-    + destruct (rx_tail s2) as [r|]; [|exact H]. destruct r; cbn; try exact H. destruct (bin_eof s2); exact H.
-    + destruct r; cbn; try exact H. destruct (bin_eof s2); exact H.
+    + destruct (rx_tail s2) as [r|]; [|exact H]. destruct r; cbn; try exact H; case_ifs; exact H.
+    + destruct r; cbn; try exact H; case_ifs; exact H.
   - cbn. destruct (is_txok _); reflexivity.
 Qed.
 
